@@ -1,6 +1,7 @@
 package main
 
 import (
+	"go/constant"
 	"fmt"
 	"go/token"
 	"go/types"
@@ -75,6 +76,7 @@ func runC12(c *Ctx) {
 	p := c.P
 	// shared rule: an object counts as present only together with its size (rules_c09.go)
 	objectPresenceRule(c, "R7", getStoreFlow(p))
+	c12Order(c)
 	rw := p.Fn("git/githistory", "(*Rewriter).Rewrite")
 	rt := p.Fn("git/githistory", "(*Rewriter).rewriteTree")
 	if rw == nil || rt == nil {
@@ -551,4 +553,54 @@ var c12Canaries = []Canary{
 	{Name: "fixup-first-wins", ExpectKey: "C12.R4#import:fixup-last-attribute-wins", Edits: []Edit{{File: "commands/command_migrate_import.go", Find: "					if attr.K == \"filter\" {\n						ok = attr.V == \"lfs\"\n					}", Repl: "					if attr.K == \"filter\" && attr.V == \"lfs\" {\n						ok = true\n						break\n					}"}}},
 	{Name: "import-wrong-size", ExpectKey: "C12.R4#import:cleans-this-blob", Edits: []Edit{{File: "commands/command_migrate_import.go", Find: "			if _, err := clean(gitfilter, &buf, b.Contents, path, b.Size); err != nil {", Repl: "			if _, err := clean(gitfilter, &buf, b.Contents, path, int64(above)); err != nil {"}}},
 	{Name: "tree-error-ignored", ExpectKey: "C12.R6#rewrite-error-aborts", Edits: []Edit{{File: "git/githistory/rewriter.go", Find: "		rewrittenTree, err := r.rewriteTree(oid, original.TreeID, \"\", opt.blobFn(), opt.treePreFn(), opt.treeFn(), vPerc)\n		if err != nil {\n			return nil, err\n		}", Repl: "		rewrittenTree, err := r.rewriteTree(oid, original.TreeID, \"\", opt.blobFn(), opt.treePreFn(), opt.treeFn(), vPerc)\n		if err != nil && rewrittenTree == nil {\n			return nil, err\n		}"}}},
+}
+
+// c12Order (R8): Rewrite() rewrites commits in the order the scanner yields them and looks every parent up in
+// the cache of commits rewritten so far; a parent not found there is taken to lie outside the migration and kept
+// as it is. That is only right when every parent comes before its children, which `git rev-list` guarantees with
+// --topo-order (--date-order also does; the default order does not under clock skew) together with --reverse.
+func c12Order(c *Ctx) {
+	p := c.P
+	fn := p.Fn("git/githistory", "(*Rewriter).scannerOpts")
+	if fn == nil {
+		c.Missing("R8", "(*githistory.Rewriter).scannerOpts", "not found")
+		return
+	}
+	set := map[string]ssa.Value{}
+	for _, b := range fn.Blocks {
+		for _, in := range b.Instrs {
+			if st, ok := in.(*ssa.Store); ok {
+				if fa, ok := st.Addr.(*ssa.FieldAddr); ok {
+					if t, f := fieldAddrName(fa); t == "git.ScanRefsOptions" {
+						set[f] = st.Val
+					}
+				}
+			}
+		}
+	}
+	topo, date := int64(-1), int64(-1)
+	if pk := p.byPath[PkgPath("git")]; pk != nil {
+		for _, nm := range []string{"TopoRevListOrder", "DateRevListOrder"} {
+			if obj, ok := pk.Types.Scope().Lookup(nm).(*types.Const); ok {
+				if v, ok := constant.Int64Val(obj.Val()); ok {
+					if nm == "TopoRevListOrder" {
+						topo = v
+					} else {
+						date = v
+					}
+				}
+			}
+		}
+	}
+	ord, okO := ConstInt(set["Order"])
+	if set["Order"] == nil {
+		okO = false
+	}
+	c.Check(okO && (ord == topo || ord == date) && topo >= 0, "R8", "scan-order:parents-first", p.Pos(fn.Pos()), "commits are listed in an order that puts parents before children (topological or date order)",
+		"the commits to rewrite are not requested in topological (or date) order: with Git's default order a child committed with an older date than its parent is rewritten first, keeps the ORIGINAL parent, and the migrated history refers to un-migrated commits")
+	rev, okR := ConstBool(set["Reverse"])
+	if set["Reverse"] == nil {
+		okR = false
+	}
+	c.Check(okR && rev, "R8", "scan-order:reverse", p.Pos(fn.Pos()), "oldest first (--reverse)", "the commits to rewrite are not listed oldest first: children would be rewritten before their parents")
 }
